@@ -629,7 +629,16 @@ func (m *StateMachine) sendInitialActionSet(ctx context.Context) (
 	// We will simply assume that the commit wait elapsed while we were offline.
 	// At worst, we propose our block early,
 	// but the other validators in the network need to be resilient to that anyway.
-	if _, _, _, _, err := m.fStore.LoadFinalizationByHeight(ctx, h); err == nil {
+	//
+	// The stored height and round are only written when switching rounds,
+	// and an initial entrance is not written at all,
+	// so the store may be more than one finalized height behind
+	// (two stops in a row before the next write); skip all of them.
+	for {
+		if _, _, _, _, err := m.fStore.LoadFinalizationByHeight(ctx, h); err != nil {
+			break
+		}
+
 		h++
 		r = 0
 
